@@ -80,6 +80,12 @@ TEXT = {
         "note": "oracle: hypercube sums and index-bit manipulation on plain vectors; sampled tables/points, all windows.",
         "technique": REF + " (sum-over-hypercube / map-of-monomials models)",
     },
+    "C14": {
+        "text": "The same monitor binary is built twice: against the serial library (no parallel feature) it writes a digest of the canonical serialization of every (operation, input shape) output; against the library with every crate's parallel feature on it recomputes each output inside rayon pools of 9 (thorough 15) sizes - including non-powers of two and sizes larger than the input - for several repetitions alternating with a background CPU hog, and compares digests. Operations are all parallel code paths: radix-2 / mixed-radix / general FFT, IFFT and coset transforms up to 2^13 (2^15), distribute_powers across the 1024*t threshold, DensePolynomial::evaluate across 16*t, dense/sparse/evaluation operators, batch inversion, MSM (all entry points and the hook kernel), BatchMulPreprocessing, normalize_batch, multi-pairings (BLS12 chunks of 4, MNT4, BW6), Valid::batch_check incl. a batch with one bad element, checked Vec<G> deserialization, multilinear and multivariate evaluation.",
+        "design_ref": "DESIGN.md §4 C14",
+        "note": "schedule coverage is by perturbation, not enumeration; interleavings inside rayon are not observable. Serial outputs are taken as reference.",
+        "technique": "cross-build differential runtime monitor (serial vs parallel build, thread-pool sweep, scheduling perturbation)",
+    },
     "C15": {
         "text": "Every BigInt<N> operation (N=1..13) is executed on edge-biased and uniform operands and compared with num-bigint, including carry/borrow flags, all shift classes, both endiannesses, parsing/printing and the three signed-digit recodings (reconstruction + digit constraints); recodings are exhaustive over 0..2^16 and the mirrored top-of-range values. Held-on-observed-executions, with required observation classes (carry out of the top limb etc.) that make an empty run inconclusive.",
         "design_ref": "DESIGN.md §4 C15",
